@@ -211,7 +211,7 @@ func (r *runner) randomStep(p profile, allowFault bool) {
 	}
 }
 
-func runRandom(rng *prng.R, prop string, thorough bool) *runner {
+func runRandom(rng *prng.R, prop string, thorough bool, sess bool) *runner {
 	p := profile{name: "c06", wFlush: 2, wDup: 3}
 	switch prop {
 	case "C07":
@@ -223,8 +223,11 @@ func runRandom(rng *prng.R, prop string, thorough bool) *runner {
 		p.midFault = !p.midFault
 	}
 	gated := rng.Intn(3) != 0
-	r := start(rng, gated, nil)
+	r := start(rng, gated, nil, sess)
 	r.profile = p.name
+	if sess {
+		r.profile += "+sess"
+	}
 	r.maxDepth = rng.Pick(1, 2, 4, 8, 8, 16, 32)
 	n := 8 + rng.Intn(40)
 	if thorough {
@@ -393,6 +396,17 @@ func runCase(seed uint64, idx int, prop string, thorough bool) caseOut {
 		r = runWriteFailWhileCompleting(rng, false)
 	case idx == 7:
 		r = runWriteFailWhileCompleting(rng, true)
+	case prop == "C06" && (idx == 2 || idx == 3 || (thorough && idx >= 20 && idx < 26)):
+		// more requests outstanding at once than any fixed pool of handlers
+		depth := 129 + rng.Intn(172)
+		if thorough && idx >= 22 {
+			depth = 300 + rng.Intn(1701)
+		}
+		r = runDeep(rng, depth, idx%2 == 1)
+	case prop == "C06" && (idx == 4 || idx == 5 || idx == 6 || (thorough && idx >= 26 && idx < 40)):
+		r = runReadOverlap(rng)
+	case prop == "C11" && (idx == 3 || idx == 5 || idx == 9 || idx == 11 || (thorough && idx >= 20 && idx < 36 && idx%4 != 2)):
+		r = runSessAllKindsFault(rng, idx%4)
 	case prop == "C11" && idx >= 2 && idx%4 == 2:
 		r = runFS(rng, idx == 2)
 	case prop == "C07" && idx >= 8 && idx-8 < len(longDistances(thorough)):
@@ -400,7 +414,7 @@ func runCase(seed uint64, idx int, prop string, thorough bool) caseOut {
 	case idx == 1 || (idx < 6 && prop == "C07"):
 		r = runFlushReuseLate(rng, 48)
 	default:
-		r = runRandom(rng, prop, thorough)
+		r = runRandom(rng, prop, thorough, idx%4 == 1)
 	}
 	out := caseOut{Case: sx.String(r.caseSexp()), Steps: len(r.steps), Hang: r.hang}
 	lab := r.profile
